@@ -231,6 +231,8 @@ def r1_r4_copy_map(ctx, ids=None, upto=None):
                     isinstance(t, ast.Name) and t.id == key_src
                     for t in n.targets):
                 key_def = n.value
+        if key_def is None:
+            key_def = key       # the expression itself (no temporary)
         if key_def is not None and isinstance(key_def, ast.Call) and \
                 call_name(key_def) == 'get' and \
                 'renamed_columns' in unparse(key_def.func) and \
